@@ -345,9 +345,15 @@ class SR:
 
     # comparisons --------------------------------------------------------
     def _c(s, o, f):
+        if isinstance(o, float) and o in (float('inf'), float('-inf')):
+            big = z3.RealVal(1)
+            return SB(z3.BoolVal(bool(f(0, 1) if o > 0 else f(1, 0))))
         o = lift(o)
         if o is NotImplemented:
             return o
+        # sqrt is monotone: compare two square roots through their radicands
+        if s.tag and o.tag and s.tag[0] == 'sqrt' and o.tag[0] == 'sqrt':
+            return SB(f(s.tag[1], o.tag[1]))
         return SB(f(s.e, o.e))
 
     def __eq__(s, o):
@@ -388,7 +394,7 @@ class SR:
         c = Ctx.cur
         if not (s >= 0):
             raise NonFinite('sqrt of a negative number')
-        return SR(sqrt_atom(s.e))
+        return SR(sqrt_atom(s.e), tag=('sqrt', s.e))
 
     def __format__(s, spec):
         return TOK.make(s)
@@ -528,7 +534,11 @@ class SC:
         return r
 
     def __abs__(s):
-        return SR(sqrt_atom((s.real * s.real + s.imag * s.imag).e))
+        im = z3.simplify(s.imag.e)
+        if z3.is_rational_value(im) and im.numerator_as_long() == 0:
+            return abs(SR(z3.simplify(s.real.e)))
+        rad = (s.real * s.real + s.imag * s.imag).e
+        return SR(sqrt_atom(rad), tag=('sqrt', rad))
 
     def __eq__(s, o):
         if o is None or isinstance(o, str):
@@ -635,6 +645,14 @@ def req(a, b):
     a = lift(a)
     b = lift(b)
     return a.e == b.e
+
+
+def sq(x):
+    """x*x as a z3 term; for a sqrt atom its radicand (exact, smaller term)"""
+    x = lift(x)
+    if x.tag and x.tag[0] == 'sqrt':
+        return x.tag[1]
+    return x.e * x.e
 
 
 def zabs(e):
